@@ -5,7 +5,7 @@ use crate::props::c20::check_bookkeeping;
 use crate::refmodel::H32;
 use crate::report::Report;
 use crate::util::{classify_refusal, fp64, guarded, Refusal};
-use crate::world::{net_req, World, WorldCfg};
+use crate::world::{World, WorldCfg};
 use ic_btc_interface::{
     GetBalanceRequest, GetBlockHeadersRequest, GetCurrentFeePercentilesRequest, GetUtxosRequest,
     Network, SendTransactionRequest,
@@ -32,9 +32,9 @@ const ENDPOINTS: [&str; 7] = [
 
 /// Calls a data endpoint with a benign request; Ok(()) = it answered (value or a
 /// request-level error), Err(refusal) = guard refusal / trap.
-fn call(w: &World, ep: &str, net: Network) -> Result<(), Refusal> {
+fn call(w: &World, ep: &str, net: Network, lower: bool) -> Result<(), Refusal> {
     let a = w.book.text(0).to_string();
-    let n = net_req(net);
+    let n = crate::world::net_req_spelled(net, lower);
     let r = match ep {
         "get_utxos" => guarded(|| {
             let _ = ic_btc_canister::get_utxos(GetUtxosRequest { address: a, network: n, filter: None });
@@ -139,9 +139,12 @@ impl Oracle for C14 {
         let cfg = w.cfg.clone();
         let fp_before = crate::world::full_fingerprint();
         let mut refused_any = false;
-        for net in [Network::Mainnet, Network::Testnet, Network::Regtest] {
+        for (net, lower) in [(Network::Mainnet, false), (Network::Testnet, false), (Network::Regtest, false), (Network::Mainnet, true), (Network::Testnet, true), (Network::Regtest, true)] {
             for ep in ENDPOINTS {
-                let r = call(w, ep, net);
+                let r = call(w, ep, net, lower);
+                if lower {
+                    out.count("calls_with_the_lower_case_network_spelling");
+                }
                 let exempt_sync = ep == "send_transaction";
                 let must_refuse = !cfg.api_access
                     || net != cfg.net
